@@ -11,7 +11,9 @@ if grep -rnE '\b(Admitted|admit|Axiom|Parameter|Conjecture)\b|Unset Guard|bypass
   echo "setup: forbidden construct in coq/ (see above)"; exit 1
 fi
 # 3. full Coq build (.vo, never -vos)
-(cd coq && ./gen_project.sh && timeout 7000 make -j16)
+# -k: a file that does not compile must not stop the other properties from being built;
+# each check re-makes its own closure and reports a broken obligation itself
+(cd coq && ./gen_project.sh && { timeout 7000 make -k -j16 || echo "setup: WARNING some Coq files failed to compile (see above)"; })
 # 4. extracted models and their drivers
 python3 - <<'PY'
 import subprocess, sys
@@ -23,8 +25,9 @@ for pid, cfg in sorted(PROPS.items()):
     if d and d[0] not in done:
         done.add(d[0])
         print('driver', d[0], flush=True)
-        subprocess.check_call(['./build_driver.sh', d[0], d[1]] + d[2], cwd='ocaml')
+        if subprocess.call(['./build_driver.sh', d[0], d[1]] + d[2], cwd='ocaml'):
+            print('setup: WARNING driver', d[0], 'failed to build (its check will report it)', flush=True)
 PY
 # 5. harness commands (against /repo's working tree, hooks on)
-(cd harness && timeout 1200 go build -tags verif -o ../build/bin/ ./cmd/...)
+(cd harness && for d in cmd/*/; do n=$(basename $d); timeout 1200 go build -tags verif -o ../build/bin/$n ./cmd/$n || echo "setup: WARNING harness $n failed to build"; done)
 echo "setup ok"
